@@ -419,3 +419,8 @@ mod tests {
         assert_eq!(it.next(), None);
     }
 }
+
+// verification hook (guard: cfg(kani)); contract harnesses live outside the repository
+#[cfg(kani)]
+#[path = "/verif/kani/statime_wire/common/tlv.rs"]
+mod verif;
